@@ -483,3 +483,9 @@ fn dedup(entries: Vec<(Node, Node)>) -> Vec<(Node, Node)> {
 fn main() {
     engine::main::<C02>()
 }
+
+/// entry point of the libFuzzer target `fuzz/fuzz_targets/c02.rs`
+#[allow(dead_code)]
+pub fn fuzz(data: &[u8]) {
+    engine::fuzz_one::<C02>(data)
+}
